@@ -235,3 +235,14 @@ package callbacks
 //@   min-sites 1
 //@   assert first-batch-recorded-before-publishing: visitRecorded == old(visitRecorded) + 1 [C13]
 //@   assert published-under-the-visit-key: arg1 == visitMapStoreKey [C13]
+
+//@ # ---------- C19: the statement text cannot depend on DryRun ----------
+//@ # "The text and values ToSQL exposes are exactly what a real run sends": the flag is read only where a driver call
+//@ # is skipped (the six executors), where the built statement is kept instead of being reset (Execute), by Save's
+//@ # fallback decision and by Row/Rows to report that no rows exist. Nothing that builds SQL reads it.
+//@ site dry-run-flag-only-gates-driver-calls
+//@   match load Config.DryRun
+//@   in gorm.* callbacks.* clause.* schema.* utils.*
+//@   not-in callbacks.Create$1 callbacks.Update$1 callbacks.Delete$1 callbacks.Query callbacks.RawExec callbacks.RowQuery gorm.(*processor).Execute gorm.(*DB).Save gorm.(*DB).Row gorm.(*DB).Rows
+//@   min-sites 0
+//@   assert not-read-while-building-a-statement: false [C19]
